@@ -99,11 +99,17 @@ class Built:
         self.prog, self.circ, self.ent, self.subs, self.rep = prog, circ, ent, subs, rep
 
 
+_SHARED_REGISTRY = [None]   # one RepetitionRegistry per top-level build: blocks with the same registry-provided count share an entry
+
+
 def rep_strategy(rep):
     if isinstance(rep, (tuple, list)):
-        reg = RepetitionRegistry()
-        reg.set_registry_at('n', int(rep[1]))
-        return RegistryRepetitionStrategy(registry=reg, registry_key='n')
+        if _SHARED_REGISTRY[0] is None:
+            _SHARED_REGISTRY[0] = RepetitionRegistry()
+        reg = _SHARED_REGISTRY[0]
+        key = 'n%d' % int(rep[1])
+        reg.set_registry_at(key, int(rep[1]))
+        return RegistryRepetitionStrategy(registry=reg, registry_key=key)
     return FixedRepetitionStrategy(int(rep))
 
 
@@ -115,6 +121,8 @@ def build(prog, rep=1, acq_from=None, root=None, observe=None, share_links=False
     """Builds a DeclarativeCircuit from a program through DeclarativeCircuit.add only.
     A block entry may carry a fourth element 'top': its measurements are then created against the registry
     of the outermost circuit instead of the block's own registry."""
+    if root is None:
+        _SHARED_REGISTRY[0] = None
     circ = DeclarativeCircuit() if rep == 1 else DeclarativeCircuit(repetition_strategy=rep_strategy(rep))
     root = root or circ
     ent, subs = [], []
